@@ -252,7 +252,9 @@ SPECIAL = [
     'C[S@](=O)CC', 'C[S@@](=O)c1ccccc1', 'C[P@](=O)(O)Cl', 'C[N@+](CC)(CCC)CCCC', 'C[Si@](F)(Cl)Br', '[C@H](C)(N)O',
     '[C@@H]1(C)CCCO1', 'C[C@H](O)[C@@H](N)C', 'C[C@H](O)[C@H](O)C', 'C[C@H]([CH2])O',
     # allenes / cumulenes
-    'CC=[C@]=CC', 'CC=[C@@]=CC', 'FC(Cl)=[C@]=C(Br)I', 'FC=[C@@]=CCl', 'FC([H])=[C@]=C([H])Cl', 'C/C=C=C=C/C', 'C/C=C=C=C\\C',
+    'CC=[C@]=CC', 'CC=[C@@]=CC', 'FC(Cl)=[C@]=C(Br)I', 'FC=[C@@]=CCl', 'FC([H])=[C@]=C([H])Cl',
+    # explicit hydrogen / deuterium on an allene terminal: the first written substituent is the reference, hydrogen included
+    'CC(F)=[C@]=C([H])Cl', 'CC(F)=[C@]=C(Cl)[H]', 'CC(F)=[C@@]=C([2H])Cl', '[H]C(C)=[C@]=C([H])C', 'ClC([2H])=[C@]=C=C=C([2H])Cl', 'CC([H])=[C@@]=C1CCC(C)CC1', 'C/C=C=C=C/C', 'C/C=C=C=C\\C',
     'F/C=C=C=C/Cl', 'CC=[C@]=C1CCC(C)CC1',
     # cis / trans: chains, conjugated, rings, closures carrying the mark, explicit H
     'F/C=C/Cl', 'F/C=C\\Cl', 'C(/F)(\\Cl)=C(/Br)I', 'F/C(Cl)=C(Br)/I', 'F/C=C/C=C/Cl', 'F/C=C/C=C\\Cl', 'F/C=C\\C=C/C=C\\Cl',
